@@ -9,7 +9,11 @@
   cache-rule         the marginal cache is only ever populated by belief_propagation(self.potentials)
   ve-equations       variable elimination (log space) adds the factors that mention a variable, marginalises it by logsumexp, and
                      normalises the final product to the total
-Not decided: numeric equality with the explicit joint; save/load round trip (pickle, trusted).
+  saved-state        save/load pickle the whole object; when the class customises what is pickled (__getstate__/__setstate__), every
+                     attribute left out of the pickle is rebuilt from ALL constructor arguments it was derived from, taken from the
+                     saved state (a tree rebuilt with the default elimination order need not be the tree the saved cliques,
+                     potentials and cached marginals belong to)
+Not decided: numeric equality with the explicit joint; the pickle round trip of the attribute values themselves (trusted).
 """
 import ast
 
@@ -43,6 +47,7 @@ def run(ctx):
     check_datavector(ctx, repo.nfunc(GM, 'GraphicalModel.datavector'))
     check_krondot(ctx, repo.nfunc(GM, 'GraphicalModel.krondot'))
     check_cache(ctx)
+    check_saved_state(ctx)
 
 
 def containing_search(fi, request, seq='self.cliques'):
@@ -291,3 +296,132 @@ def check_cache(ctx):
                        'the marginal cache that project() short-cuts through may only hold belief_propagation(self.potentials) - or marginals '
                        'stored together with self.potentials = self.mle(<the same marginals>); stores `%s`' % U(s.value))
     ctx.floor('stores to the marginal cache inside GraphicalModel', n, 1)
+
+
+def check_saved_state(ctx):
+    """what a re-loaded model answers from: the pickled attributes plus whatever __setstate__ rebuilds"""
+    repo = ctx.repo
+    meths = repo.methods(GM, 'GraphicalModel')
+    hooks = [m for m in ('__getstate__', '__setstate__', '__reduce__', '__reduce_ex__', '__getnewargs__', '__getnewargs_ex__') if m in meths]
+    save, load = repo.func(GM, 'GraphicalModel.save'), repo.func(GM, 'GraphicalModel.load')
+    ctx.analysed(save)
+    ctx.analysed(load)
+    dumps = [c for c in calls_in(save.node) if U(c.func).split('.')[-1] in ('dump', 'dumps')]
+    loads = [c for c in calls_in(load.node) if U(c.func).split('.')[-1] in ('load', 'loads')]
+    if len(dumps) != 1 or len(loads) != 1:
+        raise AnalysisError('GraphicalModel.save/load: serialisation call not found')
+    subject = save.params[0]
+    ctx.ob('saved-state', save, dumps[0], bool(dumps[0].args) and U(dumps[0].args[0]) == subject,
+           'save must serialise the model object itself (all of its state); serialises `%s`' % (U(dumps[0].args[0]) if dumps[0].args else ''))
+    if not hooks:
+        ctx.ob('saved-state', load, loads[0], True, 'no custom pickling hooks on GraphicalModel: every attribute is saved and restored as it was')
+        return
+    if set(hooks) != {'__getstate__', '__setstate__'}:
+        raise AnalysisError('GraphicalModel customises pickling through %s: not a recognised form' % hooks)
+    gs, ss = meths['__getstate__'], meths['__setstate__']
+    ctx.analysed(gs)
+    ctx.analysed(ss)
+    init = meths['__init__']
+    # ---- which attributes are left out ------------------------------------------------------------------------------------
+    from ..normalise import Defs, expand
+    dropped = None
+    gdefs = Defs(gs.body)
+    rets = [r for r in ast.walk(gs.node) if isinstance(r, ast.Return) and r.value is not None]
+    if len(rets) == 1:
+        v = expand(rets[0].value, gdefs, comps=True)
+        if isinstance(v, ast.DictComp) and len(v.generators) == 1 and U(v.generators[0].iter) == 'self.__dict__.items()' \
+                and isinstance(v.generators[0].target, ast.Tuple) and len(v.generators[0].target.elts) == 2:
+            k, val = [U(e) for e in v.generators[0].target.elts]
+            g = v.generators[0]
+            if U(v.key) == k and U(v.value) == val and len(g.ifs) == 1:
+                t = g.ifs[0]
+                if isinstance(t, ast.Compare) and len(t.ops) == 1 and isinstance(t.ops[0], ast.NotIn) and U(t.left) == k:
+                    seq = expand(t.comparators[0], gdefs)
+                    if isinstance(seq, (ast.Tuple, ast.List, ast.Set)) and all(isinstance(e, ast.Constant) and isinstance(e.value, str) for e in seq.elts):
+                        dropped = [e.value for e in seq.elts]
+                elif isinstance(t, ast.Compare) and len(t.ops) == 1 and isinstance(t.ops[0], ast.NotEq) and U(t.left) == k \
+                        and isinstance(t.comparators[0], ast.Constant):
+                    dropped = [t.comparators[0].value]
+        elif U(v).replace(' ', '') in ('self.__dict__', 'dict(self.__dict__)', 'self.__dict__.copy()'):
+            # a copy with deletions
+            dropped = []
+            name = U(rets[0].value)
+            for n in ast.walk(gs.node):
+                if isinstance(n, ast.Delete):
+                    for t in n.targets:
+                        if isinstance(t, ast.Subscript) and U(t.value) == name and isinstance(t.slice, ast.Constant):
+                            dropped.append(t.slice.value)
+                        else:
+                            dropped = None
+                            break
+                elif isinstance(n, ast.Call) and isinstance(n.func, ast.Attribute) and n.func.attr == 'pop' and U(n.func.value) == name:
+                    if n.args and isinstance(n.args[0], ast.Constant) and dropped is not None:
+                        dropped.append(n.args[0].value)
+                    else:
+                        dropped = None
+                if dropped is None:
+                    break
+    if dropped is None:
+        raise AnalysisError('GraphicalModel.__getstate__: cannot tell which attributes are left out of the pickle')
+    # ---- what each attribute set by the constructor is derived from -----------------------------------------------------------
+    params = init.params[1:]
+    deps = {}
+    for _ in range(4):
+        for n in ast.walk(init.node):
+            if isinstance(n, ast.Assign):
+                src = set()
+                for x in ast.walk(n.value):
+                    if isinstance(x, ast.Name):
+                        src |= {x.id} if x.id in params else deps.get(x.id, set())
+                    elif isinstance(x, ast.Attribute) and isinstance(x.value, ast.Name) and x.value.id == 'self':
+                        src |= deps.get('self.' + x.attr, set())
+                for t in n.targets:
+                    for e in (t.elts if isinstance(t, (ast.Tuple, ast.List)) else [t]):
+                        key = U(e)
+                        deps[key] = deps.get(key, set()) | src
+    set_by_init = {k[5:] for k in deps if k.startswith('self.')}
+    # ---- the rebuild ---------------------------------------------------------------------------------------------------------
+    state = ss.params[1]
+    rebuilds = [c for c in calls_in(ss.node) if U(c.func) in ('self.__init__', 'GraphicalModel.__init__')]
+    updates = [c for c in calls_in(ss.node) if U(c.func) == 'self.__dict__.update' and len(c.args) == 1 and U(c.args[0]) == state]
+    if not updates:
+        raise AnalysisError('GraphicalModel.__setstate__: restoring the saved attributes (self.__dict__.update(%s)) not found' % state)
+    lost = [a for a in dropped if a in set_by_init]
+    if lost and not rebuilds:
+        ctx.ob('saved-state', ss, ss.node, False,
+               'attributes %s are left out of the pickle and never rebuilt: the re-loaded model cannot answer through the junction tree' % lost)
+        return
+    if len(rebuilds) > 1:
+        raise AnalysisError('GraphicalModel.__setstate__: more than one rebuild')
+    if not rebuilds:
+        ctx.ob('saved-state', ss, updates[0], True, 'nothing the constructor derives is left out of the pickle')
+        return
+    call = rebuilds[0]
+    if call.lineno > updates[0].lineno:
+        raise AnalysisError('GraphicalModel.__setstate__: rebuild after restoring the saved attributes: not a recognised form')
+    args = list(call.args)
+    if U(call.func) == 'GraphicalModel.__init__':
+        args = args[1:]
+    bound = {}
+    for p_, a in zip(params, args):
+        bound[p_] = a
+    for kw in call.keywords:
+        if kw.arg is None:
+            raise AnalysisError('GraphicalModel.__setstate__: rebuild with **kwargs')
+        bound[kw.arg] = kw.value
+    for a in lost:
+        need = sorted(deps.get('self.' + a, set()))
+        for p_ in need:
+            if p_ not in bound:
+                ctx.ob('saved-state', ss, call, False,
+                       'the attribute `%s` is left out of the pickle and rebuilt by the constructor, which derives it from `%s`; the rebuild does not '
+                       'pass `%s`, so the default is used instead of the saved value: the rebuilt `%s` need not match the saved cliques, potentials '
+                       'and cached marginals (e.g. a junction tree re-derived by the greedy order has different cliques and separators)'
+                       % (a, p_, p_, a), construct='rebuild of %s from %s' % (a, p_))
+                continue
+            t = U(bound[p_]).replace(' ', '').replace('"', "'")
+            from_state = t in ("%s['%s']" % (state, p_), "%s.get('%s')" % (state, p_))
+            if not from_state:
+                raise AnalysisError('GraphicalModel.__setstate__: `%s` is rebuilt from `%s`, which is not the saved value %s[%r]' % (p_, t, state, p_))
+            ctx.ob('saved-state', ss, call, True, 'the left-out attribute `%s` is rebuilt from the saved `%s`' % (a, p_),
+                   construct='rebuild of %s from %s' % (a, p_))
